@@ -19,6 +19,10 @@ def run(tier):
         for mode in ("complete", "incomplete"):
             conds.append(Cond("h_parse_str.py", "terminates", to, twin="reach_states" if mode == "complete" else None, path_timeout=to / 2,
                               env={"H_SPEC": spec, "H_LEN": "2" if tier == "quick" else "4", "H_MODE": mode}))
+    for spec, alpha, ql, tl in RX_SPECS:
+        for mode in ("complete", "incomplete"):
+            conds.append(Cond("h_parse_str.py", "terminates_fa", to, path_timeout=to / 2,
+                              env={"H_SPEC": spec, "H_LEN": str(ql if tier == "quick" else tl), "H_ALPHA": alpha, "H_MODE": mode}))
     run.run_conditions(conds, conformance_harnesses=["h_parse_str.py"])
     run.encoded = PARSER_FUNCS
     run.extra["source_sha256_16"] = source_fingerprint(PARSER_FILES)
@@ -28,7 +32,7 @@ def run(tier):
     run.outside = ["prefix (INCOMPLETE) mode on left-recursive grammars: the real parser builds an unboundedly deep tree there and ends with "
                    "RecursionError - it 'raises after finitely many steps', which the property allows; excluded from the symbolic bound because the "
                    "engine's recursion limit makes it too slow", "grammars whose own derivations are cyclic (infinitely ambiguous through a nullable user-written recursion)",
-                   "regex terminals", "inputs longer than the bound"]
+                   "regex terminals on words outside the stated finite alphabets", "inputs longer than the bound"]
     run.assumptions = TRUST + ["exceeding the state budget is reported as divergence; the replay runs the real parser natively under an alarm"]
     return run.finish(
         "Bounded symbolic execution of the real parser with Column.add counted: on every path (all words up to the bound) the "
